@@ -56,7 +56,7 @@ claim("C07",
 
 claim("C08",
   "statistical property testing stratified on fill ratio (1/64 .. 50), three views per trial, generic-variance Bernstein + empirical Bernstein with confirmation; control-variate test (union sketched per trial; exchangeability of the random items gives a zero-mean low-variance statistic)",
-  "Exploration: 160/2400 generated (algorithm, float type, m, fill ratio, Jaccard fraction, shape) configurations, 600..4e5 trials each (sparse cases are cheap and get the most); the mean fraction of equal positions in the float, u64 and u32 views is compared with J. Control-variate sub-check: 64/960 configurations (m 2..256, fill 1/16..3) with 2e4..4e5 trials; resolves relative biases of a fraction of a percent in the sparse regime.",
+  "Exploration: 160/2400 generated (algorithm, float type, m, fill ratio, Jaccard fraction, shape) configurations, 600..4e5 trials each (sparse cases are cheap and get the most); the mean fraction of equal positions in the float, u64 and u32 views is compared with J. Control-variate sub-check: 400/8000 configurations (m 2..1024 over fill 1/16..3, and m 2049..9000 with sets from 4 items to m/4): screening sample of 300..2e4 trials (every trial exactly consistent with the union bounds |E[coll]-J| by L/T0), then where trials differ a fresh sample of 2e3..2e5 trials decided by empirical Bernstein with confirmation; resolves relative biases of a fraction of a percent in the sparse regime.",
   "After densification positions are strongly correlated, so only the trivial variance bound J(1-J) is assumed; resolution is recorded per run.",
   "DESIGN.md 4, 5/C08")
 
@@ -68,7 +68,7 @@ claim("C09",
 
 claim("C10",
   "statistical property testing against an exact combinatorial oracle (memoised recursion over the next lowest-ranked (element, occurrence) pair), Bernstein decision with confirmation",
-  "Exploration: 192/2400 generated (m, l, hasher, sequence pair derived by rotation / substitution / deletion / insertion / common prefix / reversal / disjoint alphabets) configurations with 1.2e4 / 4e4 trials (fresh labels per trial); mean fraction of equal positions vs the exact order-min-hash probability.",
+  "Exploration: 192/2400 generated (m, l, hasher, sequence pair derived by rotation / substitution / deletion / insertion / common prefix / reversal / disjoint alphabets) configurations with 1.2e4 / 4e4 trials (fresh labels per trial); mean fraction of equal positions vs the exact order-min-hash probability; 48/480 configurations with l 6..15 (the largest accepted value); long runs of one element (up to 131 072 occurrences).",
   "Beyond 3e6 oracle states a Monte-Carlo evaluation of the definition is used and its error added. Positions are correlated: only generic / empirical variance bounds.",
   "DESIGN.md 4, 5/C10")
 
